@@ -6,34 +6,34 @@ ROOT = os.path.dirname(os.path.dirname(os.path.abspath(__file__)))
 # id -> (technique, level text, level note, design ref)
 CLAIMED = {
  "C18": ("proptest over generated declarations (programs) in both macro syntaxes: in-process run of the macro's own source + syn-based interpretation of the generated tables, systematic one-edit broken declarations, and a compiled batch through the real proc-macros and rustc checked by a generic run-time driver",
-         "4 000 valid + 8 000 broken declarations in-process (quick; 150 000 + 300 000 thorough): both front ends succeed with token-identical output whose tables equal the declaration plus Crc32/Void/RawTag; each of 13 kinds of broken declaration is rejected. 1 (quick) / 8 (thorough) batches of 24 declarations are compiled through #[ebml_specification] and easy_ebml! and every trait function is checked for declared and probe ids, every accessor, raw tags, and iterator/writer use; 2 / 6 crates with an unknown attribute on a variant must fail to compile.",
+         "4 000 valid + 8 000 broken declarations in-process (quick; 150 000 + 300 000 thorough): both front ends succeed with token-identical output whose tables equal the declaration plus Crc32/Void/RawTag; attribute order per variant (all 6 orders of id / data_type / doc_path) and variant order are generated too; each of 14 kinds of broken declaration is rejected. 1 (quick) / 8 (thorough) batches of 24 declarations are compiled through #[ebml_specification] and easy_ebml! and every trait function is checked for declared and probe ids, every accessor, raw tags, and iterator/writer use; 2 / 6 crates with an unknown attribute on a variant must fail to compile.",
          "trusted: syn parse of the generated code; the declaration table emitted next to each compiled declaration; rustc", "4.18"),
  "C20": ("exhaustive enumeration of every partition of small inputs + proptest over (input, async read partition, Poll::Pending pattern, buffered set) with a harness-owned scripted AsyncRead on block_on; differential oracle against the blocking iterator; libFuzzer on the same stage (thorough)",
          "every composition (2^(n-1) partitions) of 80 (quick) / 250 (thorough) small documents of up to 12 / 15 bytes, with and without Pending polls and buffered masters, plus 320 000 (quick) / 2 M (thorough) random partitions of generated, mutated and adversarial inputs (1-byte reads, reads that end inside ids, sizes and payloads, 1 in 12 inputs larger than the 64 KiB transfer buffer, all buffered sets), plus the two pinned inputs of the repaired defect D14: items, offsets, first error and termination (None exactly once, and again afterwards) must equal the blocking iterator over the whole slice; next() and into_stream() both driven.",
          "trusted: the blocking iterator as reference (anchored by C01/C03/C04/C12); single-threaded harness-owned polling, real executors' timing is out of scope; behaviour after a source I/O error is outside the statement", "4.20"),
  "C02": ("proptest over accepted byte streams (canonical, non-canonical reference encodings, structure-aware and blind mutations); fixpoint oracle read(write(read(b))) == read(b)",
-         "800 000 (quick) / 4 M (thorough) generated streams; those the strict reader accepts from a root element (acceptance rate of mutated streams measured, gate >= 10%) are re-written item by item through TagWriter::write (every call must be Ok) and re-read; the two item sequences must be identical (floats by bits).",
+         "800 000 (quick) / 4 M (thorough) generated streams; those the strict reader accepts from a root element (acceptance rate of mutated streams measured, gate >= 10%) are re-written item by item through TagWriter::write (every call must be Ok) and re-read; the two item sequences must be identical (floats by bits). In a third of the cases the stream is also read with a generated set of buffered masters and those Full items are handed back to the writer: the re-read must again equal the first (unbuffered) reading.",
          "trusted: nothing beyond the harness drivers; rejected streams are outside the property", "4.2"),
  "C13": ("proptest documents with one injected fault of each class × exhaustive enumeration of all 8 tolerance subsets; plus mutated inputs × 8 subsets (metamorphic prefix relation); exhaustive size-limit threshold table",
          "160 000 + 160 000 (quick) / 800 000 + 800 000 (thorough) inputs, each read under all 8 subsets of tolerated classes: own-class error kind at the fault's offset when not tolerated, never when tolerated, no raw tags without InvalidTagIds, strict items are a prefix of tolerant items; the size limit's threshold (M passes, M+1 fails, default 4e9 untouched) is enumerated for 6 limits × 5 sizes × 3 widths.",
          "trusted: reference encoder layout for the fault's offset; faults are built so that the other classes' conditions are false at the faulty element", "4.13"),
  "C14": ("proptest documents × exhaustive enumeration of every tag boundary as junk insertion point; oracle = undamaged parse shifted by the junk length, precondition decided from the reference layout",
-         "48 000 (quick) / 250 000 (thorough) known-size documents, junk of 1-12 bytes (byte values that start no declared id) inserted at every boundary between two tags and at one random position; with the precondition true: same prefix, exactly one error, try_recover Ok, rest identical with shifted offsets; always: no panic, only EOF/read errors from try_recover, never backwards.",
+         "48 000 (quick) / 250 000 (thorough) known-size documents, junk of 1-12 bytes (byte values that start no declared id) inserted at every boundary between two tags and at one random position; read from a slice or in short reads, with a small or default buffer, strictly or with hierarchy / oversized-element errors tolerated (never invalid ids: junk stays junk); with the precondition true: same prefix, exactly one error, try_recover Ok, rest identical with shifted offsets; always: no panic, only EOF/read errors from try_recover, never backwards.",
          "trusted: reference encoder layout for the precondition; the undamaged parse (anchored by C01/C03)", "4.14"),
  "C17": ("proptest over element headers with adversarial declared sizes × limits × capacities × tolerance, measured with a counting global allocator (thread-local peak); oracle = explicit byte bounds",
          "320 000 + 320 000 (quick) / 1.5 M + 1.5 M (thorough) cases: a header declaring S in every representable width at root / inside known / inside unknown-size parents under limit M: S > M must be rejected with peak heap growth <= 2·cap + 4 KiB and no oversized read request; S <= M with missing payload <= 4·max(S,cap) + 4 KiB + payload present; whole parses of generated / mutated / adversarial streams under limit M <= 4·max(M,cap) + 8 KiB (the factor 4 is what a moving realloc of the doubling Vec costs, DESIGN 14.7); 16 000 (quick) / 60 000 (thorough) long streams of elements just within the limit: memory must not creep up.",
          "trusted: the counting allocator (thread-local); declared sizes within the limit are capped at 4 MiB for cost; only heap is measured", "4.17"),
  "C09": ("proptest over (forest, collapse choices, per-element options, short-write schedule); paired-run byte equality + reference header walk of the output",
-         "320 000 (quick) / 1.5 M (thorough) generated documents are written in paired presentations (Full vs Start/End, deprecated vs option-based unknown size, explicit widths vs defaults, scripted short-write destination vs Vec); outputs must be byte-identical, explicit widths are read back with the reference header parser and ids/payloads must be unchanged.",
+         "320 000 (quick) / 1.5 M (thorough) generated documents are written in paired presentations (Full vs Start/End — masters inside a Full item given as nested Full or as Start/End children of it —, deprecated vs option-based unknown size, explicit widths vs defaults, scripted short-write destination vs Vec); outputs must be byte-identical, explicit widths are read back with the reference header parser and ids/payloads must be unchanged.",
          "trusted: ref_header walk; widths drawn from those that fit", "4.9"),
  "C10": ("model-based proptest: generated valid call sequences, invariant checked after every call against a model of the open stack and the strict iterator over the destination",
-         "320 000 (quick) / 1.5 M (thorough) call sequences; after each call: destination only grows and is a prefix of the final output; after a completed write with no known-size master open the destination parses to exactly the accepted tags (+ Ends of open unknown-size masters); nothing of an open known-size master is handed over; flush()/into_inner() closes and delivers everything.",
+         "320 000 (quick) / 1.5 M (thorough) call sequences; after each call: destination only grows and is a prefix of the final output; after a completed write with no known-size master open the destination parses to exactly the accepted tags (+ Ends of open unknown-size masters); nothing of an open known-size master is handed over; flush()/into_inner() closes and delivers everything. A third of the sequences contain calls that must be refused (the kinds of C19), a third hand some leaves over through write_raw(); second stage (80 000 / 400 000 cases): a master End refused for its width leaves the master open, so nothing of it may reach the destination whatever the following calls return.",
          "trusted: the model in the harness, the iterator as a parser of the destination (anchored by C03/C06/C12), ref_header walk for offsets in the final output", "4.10"),
  "C11": ("proptest specs × constructed chains × exhaustive enumeration of every spec element under every chain prefix, writer and reader; oracle = backtracking reference matcher ref_match (+ ref_closes for unknown-size chains)",
-         "48 000 (quick) / 250 000 (thorough) specifications, 5 chains each (instantiated from declared paths with boundary counts per placeholder, edited, random; unreachable chains opened through the unknown-size option), every element offered at every chain prefix: ~12 M writer/reader decisions per quick run, confusion matrix in the evidence (disagreement cells must be 0).",
+         "48 000 (quick) / 250 000 (thorough) specifications, 5 chains each (instantiated from declared paths with boundary counts per placeholder, edited, random; unreachable chains opened through the unknown-size option), every element offered at every chain prefix, on the writer side with a whole Full master (acceptable or refused) written before the offers now and then, so that a verdict depending on history shows: ~12 M writer/reader decisions per quick run, confusion matrix in the evidence (disagreement cells must be 0).",
          "trusted: ref_match (cross-checked against a brute-force enumerator in unit tests over 500 000 path/chain pairs), ref_closes; ambiguous (chain, tag) triples skipped and counted", "4.11"),
  "C19": ("model-based proptest: valid call sequence with 1-3 contract-failing calls inserted; differential oracle against the run without the failing calls",
-         "480 000 (quick) / 2 M (thorough) sequences with failing calls (plus 160 000 / 800 000 cases of a master End rejected for its width: the master must stay open and unchanged) of every documented kind inserted at generated positions; the failing call must return a non-I/O error, every other call must behave as in the reference run, the destination must stay a prefix of W(V) after every call and the final bytes must be identical.",
+         "480 000 (quick) / 2 M (thorough) sequences with failing calls (plus 160 000 / 800 000 cases of a master End rejected for its width: the master must stay open and unchanged) of every documented kind (tag not allowed, size not representable for a leaf or for a Full master, unknown size on a non-master through both calls, malformed raw id, End of a master that is not the innermost, Full master with an invalid child / a stray End child / a child master left open) inserted at generated positions; the failing call must return a non-I/O error, every other call must behave as in the reference run, the destination must stay a prefix of W(V) after every call and the final bytes must be identical.",
          "trusted: ref_match to construct calls that must fail; the destination never fails", "4.19"),
  "C03": ("proptest over the reader input mix × tolerance × buffered set × capacity; oracle = reference header parser + reference payload decoders at the reported offsets (validity predicate + tiling invariant)",
          "960 000 (quick) / 5 M (thorough) inputs (valid, non-canonical, mutated, random, adversarial, mid-document) are read under random configurations; for every successful item up to the first error the id at the reported offset, the decoded value, the tiling of consecutive tags (inside Full items too) and the offsets of End/Full items are checked against the input bytes with an independent header parser and decoders.",
@@ -51,10 +51,10 @@ CLAIMED = {
          "For 96 000 (quick) / 500 000 (thorough) inputs every subset of the spec's master ids (all 2^m - 1 for m <= 6, 12 sampled otherwise) is used as buffered set; the unrolled result must equal the unbuffered parse item by item incl. offsets outside Full items, or be a prefix followed by an error when the unbuffered parse fails.",
          "metamorphic against the unbuffered parse (anchored by C03/C06/C12)", "4.8"),
  "C01": ("proptest over choice tapes decoded into (specification, conformant forest, per-tag presentation); oracle = generator-side expected sequence (round trip)",
-         "640 000 (quick) / 3 M (thorough) generated documents under generated specifications and the macro-derived RichSpec are written through TagWriter with every presentation (default, width 1-8, unknown size, Full, raw tags) and read back by the strict iterator; the expected item sequence is the generator's own flattening of the tree, so a symmetric writer+reader bug still shows whenever it changes a value or the structure. Sampling, not exhaustive: depth <= 7, <= 60 elements, payload <= 16 385 bytes (2 MiB in a thorough sub-stage).",
+         "640 000 (quick) / 3 M (thorough) generated documents under generated specifications and the macro-derived RichSpec are written through TagWriter with every presentation (default, width 1-8, unknown size, Full with nested Full or Start/End children, raw tags, leaves through write_raw) and read back by the strict iterator; the expected item sequence is the generator's own flattening of the tree, so a symmetric writer+reader bug still shows whenever it changes a value or the structure. Sampling, not exhaustive: depth <= 7, <= 60 elements, payload <= 16 385 bytes (2 MiB in a thorough sub-stage).",
          "trusted: generator-side flatten(), DynSpec consistency; ambiguous shapes (global element right after an unknown-size master, unknown size on masters with placeholder paths) are excluded by construction and counted", "4.1"),
  "C07": ("proptest-generated forests × exhaustive enumeration of all 2^m unknown-size subsets (m <= 8), two encoders, equality with the all-known-size reading",
-         "For each of 80 000 (quick) / 500 000 (thorough) generated forests with at most 8 master instances every subset of them is encoded with unknown size (real writer: 8-byte marker; reference encoder: all-ones in width 1-8) and the strict reading must equal flatten(forest) including the position of every End; 64 sampled subsets beyond 8 masters. Exhaustive over subsets per document, sampled over documents/specifications.",
+         "For each of 80 000 (quick) / 500 000 (thorough) generated forests with at most 8 master instances every subset of them is encoded with unknown size (real writer: 8-byte marker; reference encoder: all-ones in width 1-8) and the strict reading — and the reading under one generated non-empty set of tolerated error classes — must equal flatten(forest) including the position of every End; 64 sampled subsets beyond 8 masters. Exhaustive over subsets per document, sampled over documents/specifications.",
          "trusted: reference encoder, generator-side flatten(); ref_closes() decides which subsets are ambiguous and therefore skipped (counted)", "4.7"),
  "C12": ("proptest-generated documents × exhaustive enumeration of every cut position; oracle = layout of the independent reference encoder",
          "Every byte position of each of 32 000 (quick) / 200 000 (thorough) generated documents (canonical and non-canonical encodings, known/unknown sizes, 1-8 byte ids) is used as truncation point under a slice source, 1-byte reads or pseudo-random chunking and several capacities; expected prefix, closing Ends and every field of the UnexpectedEOF error are computed from the encoder's layout, never from the reader. Exhaustive over cuts per document, sampled over documents.",
